@@ -80,7 +80,7 @@ theorem C12_routes :
 -- non-vacuity: a legal run; an illegal call in the middle leaves the state as it was
 example :
     let s := step 0 (step 0 {} (.invoke 0 5 "h")) .rtNext
-    s.rt = some .running ∧ (step 0 s (.rtInitError "Runtime.Late")).out = ["rt.initerror=403,InvalidStateTransition"] ∧
+    s.rt = some .running ∧ (step 0 s (.rtInitError "Runtime.Late")).outs = ["rt.initerror=403,InvalidStateTransition"] ∧
       (step 0 s (.rtInitError "Runtime.Late")).core = s.core := by decide
 
 end Rie.Props.C12
